@@ -69,8 +69,10 @@ Theorem C04_transpose_net_correct : forall (A : Type) (d : A) (ld : nat -> list 
 Proof. exact transpose_net_lemma. Qed.
 
 (* stripe_avx2 (block loop through the network, scalar tail rows, wildcard fill,
-   empty-sequence early return) = generic stripe_into, for every sequence and every
-   stale buffer.  In particular the model's UB sites are never reached: no vector
+   empty-sequence early return; the conditions, steps and index expressions of all
+   three loops are translated from avx2.rs into GenStripeNet.v and enter the proof
+   through Avx2Proofs.blk_cond_true / blk_steps / tail_*_iff / tail_idx /
+   fill_avx2_eq) = generic stripe_into, for every sequence and every stale buffer.  In particular the model's UB sites are never reached: no vector
    load outside the sequence slice (Panic 90), no store outside the matrix (91). *)
 Theorem C04_stripe_avx2_eq_generic : forall K (s : list nat) (old : sseq),
   wf_matrix 32 (mat old) ->
@@ -102,6 +104,29 @@ Qed.
 Theorem C04_block_condition : forall R i L,
   blk_cond i R L = true -> i + 32 <= R /\ 31 * R + i + 32 <= L.
 Proof. intros R i L. exact (blk_cond_true R i L). Qed.
+
+(* what the loop texts translated from avx2.rs (GenStripeNet.v) mean: the scalar loop
+   visits rows i < rows one by one, 32 columns each, and copies s[j*R + i] into cell
+   (i, j) when that index is inside the sequence; the fill loop runs over the linear
+   indices L .. rows*columns and writes cell (k mod R, k / R); every block advances
+   the row counter, the source and the output by 32 *)
+Theorem C04_translated_loops : forall R i j k L rows columns,
+  (tail_cond i 0 R L rows = true <-> i < rows) /\
+  tail_cols = 32 /\ tail_i_step = 1 /\
+  (tail_guard i j R L rows = true <-> j * R + i < L) /\
+  (tail_row i j R L rows = i /\ tail_col i j R L rows = j /\ tail_src i j R L rows = j * R + i) /\
+  fill_lo k R L rows columns = L /\ fill_hi k R L rows columns = rows * columns /\
+  fill_row k R L rows columns = k mod R /\ fill_col k R L rows columns = k / R /\
+  (blk_i_step = 32 /\ blk_src_step = 32 /\ blk_out_step = 32).
+Proof.
+  intros R i j k L rows columns.
+  split; [exact (tail_cond_iff R i L rows)|].
+  split; [exact (proj1 tail_consts)|]. split; [exact (proj2 tail_consts)|].
+  split; [exact (tail_guard_iff R i j L rows)|].
+  split; [exact (tail_idx R i j L rows)|].
+  split; [unfold fill_lo; lia|]. split; [unfold fill_hi; lia|].
+  split; [reflexivity|]. split; [reflexivity|exact blk_steps].
+Qed.
 
 (* Pipeline<A, Dispatch>::stripe_into: whichever arm runs (table translated from
    dispatch.rs), the result is the generic one *)
